@@ -287,15 +287,25 @@ pub fn budget_s(tier: Tier) -> u64 {
 
 /// shrink a string-only failing case: delete lines, then characters, while
 /// the same clause keeps failing
-fn shrink(prop: &dyn Prop, scope: &str, case: &Case, clause: &str, kf: &Option<String>) -> Option<Case> {
+fn shrink(prop: &dyn Prop, scope: &str, case: &Case, clause: &str, kf: &Option<String>) -> Option<(Case, String)> {
     if !case.n.is_empty() || !case.x.is_empty() || !prop.shrinkable(scope) {
         return None;
     }
+    let last_detail = std::cell::RefCell::new(String::new());
     let fails = |s: &str| -> bool {
         let mut cx = Cx::new(prop.id());
         let c = Case::s(s);
         let r = std::panic::catch_unwind(std::panic::AssertUnwindSafe(|| prop.check(scope, &c, &mut cx)));
-        r.is_ok() && cx.viols.iter().any(|v| v.clause == clause && v.kf == *kf)
+        if r.is_err() {
+            return false;
+        }
+        match cx.viols.iter().find(|v| v.clause == clause && v.kf == *kf) {
+            Some(v) => {
+                *last_detail.borrow_mut() = v.detail.clone();
+                true
+            }
+            None => false,
+        }
     };
     let mut cur: Vec<char> = case.s.chars().collect();
     let mut budget = 400;
@@ -328,8 +338,9 @@ fn shrink(prop: &dyn Prop, scope: &str, case: &Case, clause: &str, kf: &Option<S
         }
     }
     let s: String = cur.iter().collect();
-    if s != case.s {
-        Some(Case::s(s))
+    if s != case.s && fails(&s) {
+        let d = last_detail.borrow().clone();
+        Some((Case::s(s), d))
     } else {
         None
     }
@@ -442,9 +453,13 @@ pub fn worker(prop: &dyn Prop, tier: Tier, seed: u64, k: u64, n: u64, from_scope
                         } else {
                             None
                         };
+                        let (sh_case, sh_detail) = match shrunk {
+                            Some((c, d)) => (Some(c.to_json()), Some(d)),
+                            None => (None, None),
+                        };
                         emit(json!({"t":"v","clause":v.clause,"detail":v.detail,"kf":v.kf,
                             "scope":scope_name,"idx":i,"case":case.to_json(),
-                            "shrunk": shrunk.map(|c| c.to_json())}));
+                            "shrunk": sh_case, "shrunk_detail": sh_detail}));
                     }
                 }
             }
@@ -748,12 +763,13 @@ pub fn run(prop: &dyn Prop, tier: Tier, seed: u64) -> i32 {
         *c += 1;
         if *c <= 5 {
             let case = if v["shrunk"].is_object() { &v["shrunk"] } else { &v["case"] };
+            let detail_v = if v["shrunk"].is_object() { &v["shrunk_detail"] } else { &v["detail"] };
             let path = write_replay(
                 id,
                 clause,
                 v["scope"].as_str().unwrap_or(""),
                 case,
-                v["detail"].as_str().unwrap_or(""),
+                detail_v.as_str().unwrap_or(""),
                 json!({"original_case": v["case"], "kf_candidate": v["kf"]}),
             );
             printed.push(format!("VIOLATION property={} replay={}", id, path));
@@ -762,7 +778,7 @@ pub fn run(prop: &dyn Prop, tier: Tier, seed: u64) -> i32 {
                 clause,
                 v["scope"].as_str().unwrap_or(""),
                 case["s"],
-                trunc(v["detail"].as_str().unwrap_or(""), 600)
+                trunc(detail_v.as_str().unwrap_or(""), 600)
             );
         }
     }
